@@ -1,2 +1,17 @@
 import SpoxModel.Props.C02
 /-! `#print axioms` for every property theorem of C02; parsed by ./check. -/
+#print axioms C02.ops_inv
+#print axioms C02.lookup_bijective
+#print axioms C02.clash_raises_name
+#print axioms C02.clash_raises_reserved
+#print axioms C02.clash_raises_rename
+#print axioms C02.reserve_clash_raises
+#print axioms C02.update_keeps_inv
+#print axioms C02.names_unique
+#print axioms C02.compile_names_unique
+#print axioms C02.clash_raises
+#print axioms C02.checkStructural_sound
+#print axioms C02.generated_to_model_safe
+#print axioms C02.generated_build_safe
+#print axioms C02.build_returns_only_checked
+#print axioms C02.adapter_names_counterexample
